@@ -183,7 +183,7 @@ func allProps() []Prop {
 	}
 	raceJobs := cat(
 		caseJobs("VerifH_race", map[string][]int{"pair": {0, 1, 2, 3, 4, 5, 6, 8}}, []string{"pair"}),
-		[]Job{{Dir: gcp, Harness: gcp, Entry: "VerifH_race", Flags: []string{"pair=7", "rr"}}},
+		[]Job{{Dir: gcp, Harness: gcp, Entry: "VerifH_race", Flags: []string{"pair=7", "rr"}}, {Dir: gcp, Harness: gcp, Entry: "VerifH_race", Flags: []string{"pair=9", "rr"}}},
 		caseJobs("VerifH_racegme", map[string][]int{"pair": {0, 1, 2, 3, 4, 5, 6, 7}}, []string{"pair"}),
 		[]Job{{Dir: me, Harness: "multiendpoint", Entry: "VerifH_raceme", TmoMs: 60000}})
 	for i := range raceJobs {
@@ -202,7 +202,7 @@ func allProps() []Prop {
 		{ID: "C13", Jobs: meJobs, Panics: true, Assume: commonAssume, Bounds: meBounds},
 		{ID: "C14", Jobs: meJobs, Assume: commonAssume, Bounds: meBounds},
 		{ID: "C01", Jobs: cat(usc, uccs, pick, pickRR, done), Assume: commonAssume, Bounds: gbBounds},
-		{ID: "C02", Jobs: cat(usc, uccs, pick, pickRR, done, rr, rrwin), Assume: commonAssume, Bounds: gbBounds},
+		{ID: "C02", Jobs: cat(usc, uccs, pick, pickRR, done, rr, rrwin, grow), Assume: commonAssume, Bounds: gbBounds},
 		{ID: "C03", Jobs: cat(initJ, usc, uccs, pick, done, donep3, grow), Assume: commonAssume, Bounds: gbBounds},
 		{ID: "C04", Jobs: cat(cnt, initJ, usc, errpick, pick, done), Assume: commonAssume, Bounds: gbBounds},
 		{ID: "C05", Jobs: cat(allGb, keysJobs), Panics: true, Assume: commonAssume, Bounds: gbBounds},
